@@ -24,6 +24,22 @@ func (idConv) Convert(o *typed.TypedValue, _ fieldpath.APIVersion) (*typed.Typed
 }
 func (idConv) IsMissingVersionError(error) bool { return false }
 
+// a type whose IsZero is declared on the pointer receiver, held by value in a map (not
+// addressable there): the omitzero predicate cached for it must not keep state between calls
+type QuotaZ struct {
+	Limit int64 `json:"limit"`
+}
+
+func (q *QuotaZ) IsZero() bool { return q.Limit == 0 }
+
+type ItemZ struct {
+	Name  string `json:"name"`
+	Quota QuotaZ `json:"quota,omitzero"`
+}
+type InvZ struct {
+	Items map[string]ItemZ `json:"items"`
+}
+
 // one worker's program: a deterministic function of (seed, parser); returns a transcript
 func c10Program(seed int64, p *typed.Parser, types []reflect.Type) string {
 	r := rand.New(rand.NewSource(seed))
@@ -84,6 +100,21 @@ func c10Program(seed int64, p *typed.Parser, types []reflect.Type) string {
 				}
 			}
 		}
+		// a statically declared type with a pointer-receiver IsZero behind omitzero
+		func() {
+			defer func() {
+				if x := recover(); x != nil {
+					sb.WriteString("reflect-panic;")
+				}
+			}()
+			inv := InvZ{Items: map[string]ItemZ{}}
+			for k := 0; k < 3; k++ {
+				inv.Items[strAlphabet[k%len(strAlphabet)]] = ItemZ{Name: "n", Quota: QuotaZ{Limit: int64(r.Intn(2) * 7)}}
+			}
+			if rv, err := value.NewValueReflect(&inv); err == nil {
+				sb.WriteString(sexpValue(normUnstructured(rv.Unstructured())))
+			}
+		}()
 		// previously unseen Go types through the reflection cache
 		if len(types) > 0 {
 			t := types[r.Intn(len(types))]
